@@ -253,7 +253,7 @@ impl Monitor for C12 {
         vec![("aggregate", tier.pick(8400, 168_000)), ("ties", tier.pick(600, 12_000)), ("structures", tier.pick(30_000, 600_000)), ("nan_scoring", tier.pick(3_000, 60_000))]
     }
     fn rule(&self) -> &'static str {
-        "case i -> objective (i mod 7), data-set size from {1,2,3,40,63,64,65,127,128,129,200,257} (i/7 mod 12; the parallel chunk is 64), soft-max output or not, output width 1 or >1, tolerance from {f32::MIN_POSITIVE, 1e-9, log-uniform [1e-12,1e-6], log-uniform [1e-6,0.5]}, pool of 1..16 threads; random network ending in a dense layer (dense/conv/deconv/pool before it); in every fourth case the output layer itself is the range of a loop connection (1..3 iterations, any of the five loop accumulations, with and without input skips). One data set in five is a slow walk (consecutive inputs a few 1e-6 apart), one in ten repeats earlier inputs exactly. One squared-error case in six contains a sample whose loss overflows to +inf (target 3e20): the reported loss must then not be finite and the accuracy still averages over all samples. One non-soft-max case in five uses exactly one-hot targets (scored by the tolerance fraction all the same). Soft-max targets are one-hot, soft probabilities, log-probabilities (all entries negative) or arbitrary reals with a unique maximum. Targets are generated from the network's own predictions so that every component is clearly inside (an exact hit or |t-p| <= tol/2) or clearly outside (>= 2 tol + 0.01) the tolerance and arg-max ties do not occur. Oracle: harness-side aggregation over the library's own predict() and objective loss(): mean loss (f64, bound n*eps), accuracy by the stated rule; predict_batch(xs)[i] must be bit-equal to predict(xs[i]) in input order (also for 0 inputs), predict(x) bit-equal to the last activation of forward(x). Every second case repeats validate() and predict_batch() on the same network with a shorter prefix of the data. ties: soft-max outputs with exactly equal maxima (uniform distribution): the accuracy must equal the frequency of some single class among the targets, whatever the tie-breaking convention. structures: chains of 3..8 layers (dense / spatial / mixed) with 0..2 skip connections and 1..3 loop connections in any arrangement the library accepts (disjoint, nested, overlapping ranges, with and without input skips), all 5 x 5 accumulation pairs: predict bit-equal to the final activation of forward, predict_batch bit-equal to predict of each input (configurations on which both forward and predict panic are counted, not judged). nan_scoring: non-soft-max outputs with NaN target components, NaN inputs (NaN predictions) or a NaN tolerance: a component whose comparison involves NaN is not within the tolerance and scores as a miss; only the accuracy is judged. Distinct = distinct (network, objective, size, tolerance) descriptors."
+        "case i -> objective (i mod 7), data-set size from {1,2,3,40,63,64,65,127,128,129,200,257} (i/7 mod 12; the parallel chunk is 64), soft-max output or not, output width 1 or >1, tolerance from {f32::MIN_POSITIVE, 1e-9, log-uniform [1e-12,1e-6], log-uniform [1e-6,0.5]}, pool of 1..16 threads; random network ending in a dense layer (dense/conv/deconv/pool before it); in every fifth non-soft-max case a hidden dense layer is soft-max; in every fourth case the output layer itself is the range of a loop connection (1..3 iterations, any of the five loop accumulations, with and without input skips). One data set in five is a slow walk (consecutive inputs a few 1e-6 apart), one in ten repeats earlier inputs exactly. One squared-error case in six contains a sample whose loss overflows to +inf (target 3e20): the reported loss must then not be finite and the accuracy still averages over all samples. One non-soft-max case in five uses exactly one-hot targets (scored by the tolerance fraction all the same). Soft-max targets are one-hot, soft probabilities, log-probabilities (all entries negative) or arbitrary reals with a unique maximum. Targets are generated from the network's own predictions so that every component is clearly inside (an exact hit or |t-p| <= tol/2) or clearly outside (>= 2 tol + 0.01) the tolerance and arg-max ties do not occur. Oracle: harness-side aggregation over the library's own predict() and objective loss(): mean loss (f64, bound n*eps), accuracy by the stated rule; predict_batch(xs)[i] must be bit-equal to predict(xs[i]) in input order (also for 0 inputs), predict(x) bit-equal to the last activation of forward(x). Every second case repeats validate() and predict_batch() on the same network with a shorter prefix of the data. ties: soft-max outputs with exactly equal maxima (uniform distribution): the accuracy must equal the frequency of some single class among the targets, whatever the tie-breaking convention. structures: chains of 3..8 layers (dense / spatial / mixed) with 0..2 skip connections and 1..3 loop connections in any arrangement the library accepts (disjoint, nested, overlapping ranges, with and without input skips), all 5 x 5 accumulation pairs: predict bit-equal to the final activation of forward, predict_batch bit-equal to predict of each input (configurations on which both forward and predict panic are counted, not judged). nan_scoring: non-soft-max outputs with NaN target components, NaN inputs (NaN predictions) or a NaN tolerance: a component whose comparison involves NaN is not within the tolerance and scores as a miss; only the accuracy is judged. Distinct = distinct (network, objective, size, tolerance) descriptors."
     }
     fn assumptions(&self) -> Vec<&'static str> {
         vec!["boundary semantics (|t-p| == tol, arg-max ties) are unspecified and not generated; NaN losses are not judged, a NaN comparison is read as not within the tolerance (nan_scoring)", "per-sample predict() and loss() are trusted here (they are the subject of C02/C06)"]
@@ -286,6 +286,7 @@ impl Monitor for C12 {
         o.max_count = 40;
         o.max_extent = 5;
         o.end_dense = Some(if softmax { Act::Softmax } else if obj.probabilistic() { Act::Sigmoid } else { *rng.pick(&[Act::Linear, Act::Tanh, Act::Sigmoid]) });
+        let mut hidden_softmax = false;
         let mut cfg = random_net(&mut rng, &o);
         // fix the output width
         let last = cfg.layers.len() - 1;
@@ -294,6 +295,19 @@ impl Monitor for C12 {
         }
         if idx % 5 == 4 && cfg.layers.len() >= 2 {
             insert_block(&mut rng, &mut cfg, 3);
+        }
+        // every fifth non-soft-max case: a HIDDEN dense layer is soft-max (the accuracy rule is
+        // decided by the output layer alone)
+        if !softmax && idx % 5 == 1 {
+            let last = cfg.layers.len() - 1;
+            let hidden: Vec<usize> = (0..last).filter(|i| matches!(cfg.layers[*i], LCfg::Dense { .. })).collect();
+            if !hidden.is_empty() {
+                let h = *rng.pick(&hidden);
+                if let LCfg::Dense { act, .. } = &mut cfg.layers[h] {
+                    *act = Act::Softmax;
+                }
+                hidden_softmax = true;
+            }
         }
         // every fourth case: the output layer itself is looped (a dense layer of the output
         // width is put in front of it so that the loop's shapes fit), any loop accumulation
@@ -320,6 +334,9 @@ impl Monitor for C12 {
         }
         let mut out = Out::new(format!("{} {} n{} tol{:e} softmax{} threads{}", obj.name(), cfg.describe(), n, tol, softmax, threads));
         out.cover("sizes", n.to_string());
+        if hidden_softmax {
+            out.count("non_softmax_outputs_behind_a_hidden_softmax_layer", 1);
+        }
         if !cfg.loops.is_empty() {
             out.count("cases_with_a_looped_output_layer", 1);
             out.cover("looped_output_layer_accumulation_x_rule", format!("{}/{}", cfg.loopacc.name(), if softmax { "argmax" } else { "tolerance" }));
